@@ -17,6 +17,7 @@ TIER_SIZES = {
     "perm": (24, 200),
     "join": (40, 300),      # join-heavy workflows, fractional transfer waits
     "b2b": (16, 160),       # sub-array observations starting exactly when others finish
+    "overrate": (6, 40),    # data rate above the hot buffer's maximum ingest rate
     "tier": (20, 160),      # hot buffer beyond its tiering threshold (known findings live here)
     "overlap": (8, 40),
 }
@@ -43,6 +44,9 @@ def jobs(tier, seed):
     rng = random.Random(f"b2b-{seed}")
     for i in range(TIER_SIZES["b2b"][idx]):
         out.append(("b2b", gen.random_cfg(rng, alg=algs[i % 3], family="b2b"), {}))
+    rng = random.Random(f"overrate-{seed}")
+    for i in range(TIER_SIZES["overrate"][idx]):
+        out.append(("overrate", gen.random_cfg(rng, alg=algs[i % 3], family="overrate"), {}))
     rng = random.Random(f"tier-{seed}")
     for i in range(TIER_SIZES["tier"][idx]):
         out.append(("tier", gen.random_cfg(rng, alg=algs[i % 3], family="tier"), {}))
